@@ -194,7 +194,11 @@ func ParseContractFile(path string) (*ContractFile, error) {
 		}
 		retK := 0
 		if strings.HasPrefix(kw, "assert@ret#") {
-			retK, _ = strconv.Atoi(strings.TrimPrefix(kw, "assert@ret#"))
+			if strings.TrimPrefix(kw, "assert@ret#") == "last" {
+				retK = -1 // the last return in source order, whatever its ordinal
+			} else {
+				retK, _ = strconv.Atoi(strings.TrimPrefix(kw, "assert@ret#"))
+			}
 			kw = "assert@ret"
 		}
 		switch kw {
